@@ -1,2 +1,16 @@
 import LP.Props.C01
-#print axioms LP.C01_placeholder
+#print axioms LP.Mono.toFinsupp_norm
+#print axioms LP.MPoly.den_normalize
+#print axioms LP.MPoly.C01_add
+#print axioms LP.MPoly.C01_neg
+#print axioms LP.MPoly.C01_sub
+#print axioms LP.MPoly.C01_mul
+#print axioms LP.MPoly.C01_mulInt
+#print axioms LP.MPoly.C01_const
+#print axioms LP.MPoly.C01_pow
+#print axioms LP.MPoly.C01_addMul
+#print axioms LP.MPoly.C01_subMul
+#print axioms LP.MPoly.C01_shl
+#print axioms LP.MPoly.C01_evalInt
+#print axioms LP.C01_Z
+#print axioms LP.C01_ZMod
